@@ -3,53 +3,16 @@
    the cache_when_complex flags, and the exported family is exactly the expected one.  Kernel-checked by
    computation. *)
 From Coq Require Import ZArith Bool List String Lia.
-From Verif Require Import Base.Word256 C03.LIR C03.ArithSpec C03.ArithModel C03.TieBase C03.GenLegacy.
+From Verif Require Import Base.Word256 C03.LIR C03.ArithSpec C03.ArithModel C03.TieBase C03.TieModels C03.GenLegacy.
 Import ListNotations.
 Open Scope Z_scope.
-
-Definition bools : list bool := [false; true].
-(* operand shape: 0 = both operands are IR variables, 1 = x is the literal [lit], 2 = y is the literal [lit] *)
-Definition ea_of (sh lit : Z) : lir := if sh =? 1 then LInt lit else vx.
-Definition eb_of (sh lit : Z) : lir := if sh =? 2 then LInt lit else vy.
-
-Definition models (op : aop) (T : nty) (sh lit : Z) : list lir :=
-  let ea := ea_of sh lit in
-  let eb := eb_of sh lit in
-  match op with
-  | AAdd => map (m_safe_add T ea eb) bools
-  | ASub => map (m_safe_sub T ea eb) bools
-  | AMul => flat_map (fun i1 => map (m_safe_mul T ea eb i1) bools) bools
-  | ADiv => map (m_safe_div T ea eb) bools
-  | AMod => [m_safe_mod T ea eb]
-  | AUSub => if nsigned T && (sh =? 0) then [m_usub T] else []
-  | APow => []
-  end.
-
-Definition tie_one (p : aop * nty * Z * Z * lir) : bool :=
-  match p with (op, T, sh, lit, t) =>
-    ty_okb T && shape_okb T sh lit && existsb (lir_eqb t) (models op T sh lit) end.
 
 Lemma tie_arith_legacy : forallb tie_one legacy_templates = true.
 Proof. vm_compute. reflexivity. Qed.
 
-Definition tie_clamp_one (p : nty * lir) : bool :=
-  match p with (T, t) => ty_okb T && lir_eqb t (m_clamp_basetype T) end.
 Lemma tie_clamp_legacy : forallb tie_clamp_one legacy_clamps = true.
 Proof. vm_compute. reflexivity. Qed.
 
-(* the exported family is the complete expected one: 65 numeric types x {+,-,*,/,%} with both operands
-   variable, unary minus on the 33 signed types, and for every literal of [lit_values T] both literal
-   positions (a literal zero divisor of safe_div is rejected by the IR optimiser at template time and has no template) *)
-Definition zero_div (op : aop) (sh lit : Z) : bool :=
-  match op with ADiv => (sh =? 2) && (lit =? 0) | _ => false end.
-Definition expected_keys : list (aop * nty * Z * Z) :=
-  flat_map (fun T =>
-    app (map (fun op => (op, T, 0, 0)) ops5)
-   (app (if nsigned T then [(AUSub, T, 0, 0)] else [])
-        (flat_map (fun lit =>
-           flat_map (fun op => filter (fun k => match k with (o, _, sh, l) => negb (zero_div o sh l) end)
-                                      [(op, T, 1, lit); (op, T, 2, lit)]) ops5)
-           (lit_values T)))) num_types.
 Lemma family_complete_legacy : map fst legacy_templates = expected_keys.
 Proof. vm_compute. reflexivity. Qed.
 Lemma family_complete_legacy_clamps : map fst legacy_clamps = num_types.
